@@ -486,7 +486,31 @@ func sequenceCasesBody() (out []string) {
 	if fmt.Sprint(got) != fmt.Sprint(want) {
 		out = append(out, fmt.Sprintf("a sequence of publishes on one bus was recorded under the types %v, the events' type names are %v", got, want))
 	}
+	// a value without a JSON encoding (its business is C13's) followed by encodable values of
+	// the same Go type: those are recorded like any other
+	ms2 := eventbus.NewMemoryStore()
+	bus2 := eventbus.New(eventbus.WithStore(ms2))
+	eventbus.Publish(bus2, Env{ID: 1, Payload: make(chan int)})
+	eventbus.Publish(bus2, Env{ID: 2, Payload: map[string]any{"k": []int{1, 2}}})
+	eventbus.Publish(bus2, Env{ID: 3, Payload: "text"})
+	evs2, _, _ := ms2.Read(context.Background(), eventbus.OffsetOldest, 0)
+	var ids []int
+	for _, e := range evs2 {
+		var d Env
+		if json.Unmarshal(e.Data, &d) == nil {
+			ids = append(ids, d.ID)
+		}
+	}
+	if fmt.Sprint(ids) != "[2 3]" {
+		out = append(out, fmt.Sprintf("after a value that has no JSON encoding, encodable values of the same Go type are recorded as %v (want [2 3])", ids))
+	}
 	return append(out, sizesCase()...)
+}
+
+// Env is encodable or not depending on the dynamic type behind its interface field.
+type Env struct {
+	ID      int
+	Payload any
 }
 
 // Big is an event with a payload of a chosen size.
@@ -889,6 +913,9 @@ func run(c *h.Check) {
 			sig := "sequence on one bus: recorded type differs from the event's type name"
 			if strings.Contains(m, "payload") {
 				sig = "sequence on one bus: a record changed after it was appended (payloads of 5 bytes to 100 KiB)"
+			}
+			if strings.Contains(m, "no JSON encoding") {
+				sig = "sequence on one bus: encodable values are not recorded after a value of the same Go type that has no JSON encoding"
 			}
 			c.Violate("sequence", sig, m, map[string]any{"sequence": true})
 		}
